@@ -21,7 +21,11 @@
 (*    IT (pass counter), K0 (leaf state), U (the caller's own state);      *)
 (*  - leaf "ins0": init inserts K0 = 0 into the current scope; execute     *)
 (*    increments the innermost visible K0;  leaf "req0": require demands   *)
-(*    K0; "plain": nothing;                                                *)
+(*    K0; "plain": nothing;  leaf "ent0": the same state managed through   *)
+(*    the get-or-create accessors (entry().or_insert / or_insert_with /    *)
+(*    or_default / Vacant::insert): init and execute create K0 = 0 in the  *)
+(*    CURRENT scope iff no K0 is visible, execute then increments the      *)
+(*    innermost visible one;                                               *)
 (*  - a condition evaluation consumes the next entry of the global script  *)
 (*    (exhausted = false);                                                 *)
 (*  - fault <<ph, n>>: the n-th event of phase ph fails (returns Err)      *)
@@ -79,6 +83,9 @@ Bump(s, x) == LET i == FindKey(s.sc, x, Top(s)) IN
               IF i = 0 THEN s ELSE [s EXCEPT !.sc[i][x] = @ + 1]
 
 KeyOf(v) == "K0"
+\* entry-style get-or-create: an existing binding (in whichever scope) is left alone, a missing one is created
+\* in the current (innermost) scope
+GetOrCreate(s, x) == IF Vis(s.sc, x) = NoVal THEN SetTop(s, x, 0) ELSE s
 
 (* ---- the Logger component (src/logging/logger.rs), C15 ---------------------------------------- *)
 TrigScript == <<1, 0, 1, 1, 0>>
@@ -131,7 +138,9 @@ InitS(x, p, s) ==
     ELSE CASE x.k = "leaf" /\ x.v = "log" -> s
            [] x.k = "leaf" ->
                 LET s1 == Emit(s, "init", "leaf", p, NoVal) IN
-                IF s1.st = "ok" /\ x.v = "ins0" THEN SetTop(s1, KeyOf(x.v), 0) ELSE s1
+                IF s1.st = "ok" /\ x.v = "ins0" THEN SetTop(s1, KeyOf(x.v), 0)
+                ELSE IF s1.st = "ok" /\ x.v = "ent0" THEN GetOrCreate(s1, KeyOf(x.v))
+                ELSE s1
            [] x.k = "while" ->      \* insert the pass counter, init condition, init body
                 InitB(x.b, p \o <<1>>, Emit(SetTop(s, "IT", 0), "init", "cond", p \o <<0>>, NoVal))
            [] x.k = "if" -> InitB(x.b, p \o <<1>>, Emit(s, "init", "cond", p \o <<0>>, NoVal))
@@ -185,7 +194,9 @@ ExecS(x, p, s) ==
     ELSE CASE x.k = "leaf" /\ x.v = "log" -> LogExec(s)      \* mahf's own Logger: no event, effect on the log
            [] x.k = "leaf" ->
                 LET s1 == Emit(s, "exec", "leaf", p, NoVal) IN
-                IF s1.st = "ok" /\ x.v = "ins0" THEN Bump(s1, KeyOf(x.v)) ELSE s1
+                IF s1.st = "ok" /\ x.v = "ins0" THEN Bump(s1, KeyOf(x.v))
+                ELSE IF s1.st = "ok" /\ x.v = "ent0" THEN Bump(GetOrCreate(s1, KeyOf(x.v)), KeyOf(x.v))
+                ELSE s1
            [] x.k = "while" ->      \* the condition is re-initialised on loop entry
                 LoopFrom(x, p, Emit(s, "init", "cond", p \o <<0>>, NoVal))
            [] x.k = "if" ->
@@ -349,11 +360,12 @@ BodyOnlyAfterTrueTest ==
 
 \* completed passes are counted, changes to non-shadowed outer state persist, shadowed outer state
 \* is restored, state created inside a scope is gone: accounting on the caller's (root) scope
+Creating == {"ins0", "ent0"}      \* leaf variants that create K0 (by insert / by the get-or-create accessors)
 RootPasses == {i \in Idx : Out[i].kind = "cond" /\ Out[i].ph = "exec" /\ Out[i].b = 1 /\ Out[i].fail = 0
                             /\ IsLoopCond(Out[i].p) /\ LevelOf(Out[i].sc, "IT") = 1}
 RootBumps == {i \in Idx : Out[i].kind = "leaf" /\ Out[i].ph = "exec" /\ Out[i].fail = 0
-                           /\ StmtAt(prog, Out[i].p).v = "ins0" /\ LevelOf(Out[i].sc, "K0") = 1}
-HasOutside(kind, v) == \E nd \in Outside : nd[1] = "leaf" /\ kind = "leaf" /\ StmtAt(prog, nd[2]).v = v
+                           /\ StmtAt(prog, Out[i].p).v \in Creating /\ LevelOf(Out[i].sc, "K0") = 1}
+HasOutside(kind, vs) == \E nd \in Outside : nd[1] = "leaf" /\ kind = "leaf" /\ StmtAt(prog, nd[2]).v \in vs
 HasOutsideLoop == \E nd \in Outside : nd[1] = "cond" /\ IsLoopCond(nd[2])
 RECURSIVE HasSeed(_)
 HasSeed(body) == \E i \in 1..Len(body) : (body[i].k = "scope" /\ body[i].v = "seed") \/ HasSeed(body[i].b) \/ HasSeed(body[i].e)
@@ -361,7 +373,7 @@ RootAccounting ==
     End.result = "ok" =>
       /\ End.root["IT"] = (IF HasOutsideLoop THEN Cardinality(RootPasses) ELSE NoVal)
       \* (a seeded scope's merge function writes K0 as well: accounted for by SeedStaysInside below)
-      /\ ~HasSeed(prog) => End.root["K0"] = (IF HasOutside("leaf", "ins0") THEN Cardinality(RootBumps) ELSE NoVal)
+      /\ ~HasSeed(prog) => End.root["K0"] = (IF HasOutside("leaf", Creating) THEN Cardinality(RootBumps) ELSE NoVal)
 \* a scope body starts from an empty child scope each time it is entered
 ScopeEntryFresh ==
     \A i \in Idx : i > 1 /\ D(i) > D(i - 1) =>
